@@ -13,6 +13,7 @@ IsQ(e) == e.op = "q"
 Undef == [op |-> "undef", v |-> NaN]       \* the definition does not apply: NaN or a non-finite value is acceptable
 IsUndef(e) == e.op = "undef"
 NaNE == Q(NaN)
+AnyE == [op |-> "any", v |-> NaN]          \* a value the definition does not constrain (e.g. the abscissa of an undrawn point)
 
 \* exact square root of a rational whose numerator and denominator are perfect squares, else <<>>
 SqrtBound(n) == IF n < 317 THEN n ELSE 317          \* 317^2 > 100000, the largest radicand simplified; keeps r * r inside 32 bits
